@@ -26,7 +26,7 @@ func init() {
 			"(11) the built-in response-wrapping policy text names exactly cubbyhole/response [create, read] and sys/wrapping/unwrap [update], the policy is in the immutable table, and SetPolicy writes only across that table's refusal; " +
 			"(12) handleWrappingLookup reads the wrap info through a context switched to the namespace found from the looked-up token's NamespaceID; " +
 			"(13) handleWrappingRewrap consumes the use, reads the cubbyhole and revokes through a context switched to that namespace as well; " +
-			"(14) the token revoked after a third-party unwrap / rewrap is named by the looked-up entry's own ID, not by the (external) form found in the request.",
+			"(14) the token revoked after a third-party unwrap / rewrap is named by the looked-up entry's own ID, not by the (external) form found in the request. (4b) UseTokenByID — how a third-party unwrap or rewrap claims the single use — hands back only UseToken's own results: a token that lookup no longer returns is an error, never a success (shared with C19.1).",
 		NotDecided: "'exactly one of k concurrent unwraps succeeds' (schedules); TTL expiry behaviour; that the cubbyhole backend isolates tokens (C12.4).",
 		Run:        runC18,
 	})
@@ -36,6 +36,9 @@ func runC18(c *eng.Ctx, thorough bool) {
 	c18Namespace(c)
 	// ---- C18.4 the single use is consumed by the locked read-modify-write of C19.1
 	useTokenAtomic(c, "C18.4")
+	// ... and a third-party unwrap/rewrap claims it through UseTokenByID, which never reports success for a token
+	// that lookup no longer returns (shared with C19.1; added after seed C18-d)
+	c19gUseTokenByID(c, "C18.4")
 	// ---- C18.1 the wrapping token literal
 	if f := c.Fn("vault.(*Core).wrapInCubbyhole"); f != nil {
 		c.Clause("R12", "C18.1")
